@@ -136,6 +136,9 @@ def ops(a, b, tier):
             if nns < maxns:
                 yield ('addns', p, u)
                 yield ('insns', p, u, 0)
+            elif nns == maxns and nns >= 2:
+                # a third rule behind two: it may take the URI of one and the prefix of the other (the list shrinks again)
+                yield ('insns', p, u, nns)
         yield ('nsdel', p)
     for i in range(nns):
         yield ('delns', i)
